@@ -40,6 +40,7 @@ def run(ctx, chk):
     r2(ctx, chk)
     r3(ctx, chk)
     r4(ctx, chk)
+    r5(ctx, chk)
 
 
 # ---------------------------------------------------------------------------
@@ -505,3 +506,60 @@ def r4(ctx, chk):
                        key={"function": fk, "construct": "early exit from loop over set " + ast.unparse(node.iter)[:40]},
                        file=f.file, function=f.qual, line=node.lineno)
     chk.floor(rule, n, 3, "uses of set-typed values in order-sensitive positions examined")
+
+
+# ---------------------------------------------------------------------------
+def r5(ctx, chk):
+    """a value cached for the life of the process on a shared object must not be computed from the first caller's
+    settings - unless the code that fills it can only ever run with the default Settings"""
+    rule = "C03.R5"
+    from ..core.heap import Heap
+    from . import c20
+
+    heap = ctx.memo("heap", lambda: Heap(ctx))
+    reach = ctx.cg.reachable(c20.ENTRIES)
+    n = 0
+    for f, node, kind, target, why in heap.writes(reach):
+        cat, detail = c20.classify(ctx, heap, f, node, kind, target)
+        if cat not in ("lazy-memo", "keyed-memo", "FINDING"):
+            continue
+        if cat == "FINDING" and not detail.startswith("lazily cached"):
+            continue
+        n += 1
+        if cat != "FINDING":
+            chk.ob(rule, "%s: cached `%s` does not depend on the call's arguments" % (f.qual, c20.norm_target(target)), True)
+            continue
+        default_only = _only_default_settings(ctx, f)
+        chk.ob(rule, "%s: cached `%s` is independent of the first caller's settings" % (f.qual, c20.norm_target(target)),
+               bool(default_only),
+               "the value is built once per process from the settings of whichever call came first (%s), so later calls "
+               "with other settings see a result that depends on call history" % detail[:120],
+               key={"function": f.key, "target": c20.norm_target(target)}, file=f.file, function=f.qual, line=node.lineno,
+               text=" ".join(ast.unparse(node).split())[:120])
+        if default_only:
+            chk.note("%s: %s" % (f.qual, default_only))
+    chk.floor(rule, n, 8, "process-lifetime caches on shared objects")
+
+
+def _only_default_settings(ctx, f):
+    """every call chain into f starts at FullTextLanguageDetector._best_language invoked without settings="""
+    cg = ctx.cg
+    bl = "dateparser.search.text_detection:FullTextLanguageDetector._best_language"
+    seen, work = set(), [f.key]
+    while work:
+        k = work.pop()
+        if k in seen:
+            continue
+        seen.add(k)
+        if k == bl:
+            continue
+        callers = cg.callers.get(k, set())
+        if not callers:
+            return None
+        work.extend(callers)
+    for ck in cg.callers.get(bl, ()):
+        for s in cg.sites[ck]:
+            if any(c.key == bl for c in s.callees) and isinstance(s.node, ast.Call):
+                if any(k.arg == "settings" for k in s.node.keywords) or len(s.node.args) > 1:
+                    return None
+    return "only reachable from _best_language called without settings=, i.e. always with the default Settings"
